@@ -15,7 +15,12 @@ ap.add_argument("--tier", default="quick")
 ap.add_argument("--only")
 ap.add_argument("--props")
 ap.add_argument("--baseline", action="store_true", help="also run the repo test suite on the mutant")
+ap.add_argument("--benign", action="store_true", help="run the property-PRESERVING changes of tools/benign.py: every check must stay quiet")
 args = ap.parse_args()
+if args.benign:
+    from tools.benign import BENIGN  # noqa: E402
+
+    MUTANTS = {k: (v[0], v[1]) for k, v in BENIGN.items()}
 only = set(args.only.split(",")) if args.only else None
 props = set(args.props.split(",")) if args.props else None
 
@@ -58,12 +63,15 @@ for mid, m in MUTANTS.items():
             viol = [l for l in r.stdout.splitlines() if l.startswith("VIOLATION")]
             sigs = [l.strip() for l in r.stdout.splitlines() if l.strip().startswith("signature:")]
             status = "CAUGHT" if r.returncode == 1 and viol else ("HARNESS-ERR" if r.returncode == 2 else "MISSED")
+            if args.benign:
+                status = {"CAUGHT": "FALSE-ALARM", "MISSED": "QUIET"}.get(status, status)
             print(f"{mid:28s} {p} {status:11s} {time.time()-t:5.1f}s{base} {sigs[:2]}", flush=True)
             if status == "HARNESS-ERR":
                 print(r.stderr[-800:])
             results.append((mid, p, status))
     finally:
         sh("git -C /repo checkout -- .")
-missed = [r for r in results if r[2] != "CAUGHT"]
-print(f"{len(results) - len(missed)}/{len(results)} caught")
+good = "QUIET" if args.benign else "CAUGHT"
+missed = [r for r in results if r[2] != good]
+print(f"{len(results) - len(missed)}/{len(results)} {good.lower()}")
 sys.exit(1 if missed else 0)
